@@ -6,6 +6,11 @@ VERIF = os.path.dirname(os.path.dirname(os.path.abspath(__file__)))
 
 # id -> (level category, technique, level text, level note, design ref)
 CHECKS = {
+    "C16": ("exploration",
+            "enumeration of payload lengths x object types x formats x containers (round-trip + still-decrypts oracle) and the complete wrong-length table (count 0..=2N for each fixed N, four encodings, nested documents)",
+            "Every object type is pushed through to_bytes/from_bytes, into_parts/from_parts, serde_json (three entry points), bincode (two) and serde's value deserializers for both visitor paths, for every payload length 0..=L; the decoded object must equal the original and still decrypt/verify; to_bytes must equal libsodium's layout; every wrong-length encoding of a fixed-length container must be an error, never padding, truncation or a panic.",
+            "Two serde formats plus serde's own value deserializers; other formats' habits (e.g. size hints) are represented by those two visitor paths.",
+            "DESIGN.md §3 C16"),
     "C14": ("exploration",
             "model-based stateful testing: canonical type-state paths + proptest-random operation histories, each in a forked process; oracle = kernel bookkeeping (/proc/self/smaps, VmLck) and forked access probes (SIGSEGV verdicts)",
             "After every step of every history the kernel's view must match the model of the type state: per-page rights, lock flag, total locked size, guard pages, contents; forbidden accesses are performed in forked probes and must fault; after the last drop no locked or re-protected page may remain. Histories shrink to minimal sequences.",
